@@ -212,6 +212,9 @@ def replay_walk(comp: Component, cfg, walk):
 def _replay_task(args):
     modname, attr, cfg, walk = args
     comp = getattr(importlib.import_module(modname), attr)
+    if comp.shadow is not None and len(walk) % 2 == 0:   # half of the walks without shadow callers (see record_trace)
+        comp = copy.copy(comp)
+        comp.shadow = None
     try:
         bad, sched = replay_walk(comp, cfg, walk)
         return cfg, bad, sched, None
@@ -293,6 +296,12 @@ def random_schedule(comp: Component, cfg, rng: random.Random, cycles: int):
 def record_trace(comp: Component, cfg, seed: int, cycles: int):
     from .drive import CompSim
     rng = random.Random(seed)
+    # every second recorded run has no shadow callers: a method with a single caller is wired differently by
+    # the library (no argument multiplexer), and that shape has to be observed too
+    use_shadow = comp.shadow is not None and seed % 2 == 1
+    if not use_shadow:
+        comp = copy.copy(comp)
+        comp.shadow = None
     cs = CompSim(comp.build, cfg, scheduler=comp.scheduler, dm_setup=comp.dm_setup,
                  shadows=list(comp.shadow(cfg)) if comp.shadow else [])
     lines = cs.run(random_schedule(comp, cfg, rng, cycles))
